@@ -1119,6 +1119,14 @@ def smap_method(interp, m: SMap, name, args, kwargs):
         return default
     if name == "copy":
         return m.copy()
+    if name == "update" and len(args) == 1 and not kwargs:
+        o = args[0]
+        if isinstance(o, dict):
+            o = sym.dict_to_smap(ctx, o, m.kty, m.vty)
+        if isinstance(o, SMap):
+            # in place: keys of the argument win
+            m.has, m.val = sym.binop(ctx, "BitOr", m.copy(), o).has, sym.binop(ctx, "BitOr", m.copy(), o).val
+            return None
     raise Unsupported(f"dict.{name} on symbolic map")
 
 
@@ -1152,7 +1160,7 @@ def path_method(interp, p: Rec, name, args, kwargs):
     interp.used_models.add("A-FS: Path.exists/read_text/write_text/open/mkdir/rename behave as a map path -> contents (no concurrent writer)")
     if name == "exists":
         return sym.sbool(z3.Select(g["fs_exists"], ps))
-    if name == "read_text":
+    if name in ("read_text", "read_bytes"):  # bytes and text are not distinguished (A-ASCII)
         if not ctx.branch(z3.Select(g["fs_exists"], ps), "read_text: exists"):
             raise PyRaise("FileNotFoundError", "read_text")
         return sym.sstr(z3.Select(g["fs_content"], ps))
